@@ -217,7 +217,8 @@ def r3_park_if_live(ctx):
     pp = F.fn('proto::ping_pong::UserPings::poll_pong')
     if pp:
         closed = F.const_val('proto::ping_pong::USER_STATE_CLOSED')
-        sw = [s for bi, s in core.all_switches(F, pp).items() if s.kind == 'int' and closed in s.labels.values()]
+        sw = [s for bi, s in core.all_switches(F, pp).items() if s is not None and ((s.kind == 'int' and closed in s.labels.values())
+              or (core.cmp_of(s) is not None and core.cmp_of(s)[0] in ('Eq', 'Ne') and any(c[1] == closed for c in core.consts_in(s.subject))))]
         r.check(bool(sw), 'park|poll_pong', pp.file, 'poll_pong distinguishes USER_STATE_CLOSED (Ready(Err)) from waiting')
 
 
